@@ -7,6 +7,10 @@ Correspondence: exhaustive small-scope histories + random histories over the pub
 run on the real objects and on the Lean model (`kernel.run`); outcome and state delta (every record that
 changed, objects as creation indices) are compared after every call.
 Oracle: `kernel_ops.wf_oracle` — the invariant itself on the real objects through public accessors only.
+Round 4: `C01_sort_exact` (an accepted sort leaves every graph of the nest with exactly the entry C12's sort model
+returned), GraphView in the model (`Model/KernelView.lean`; `C01_view_frame`, `C01_views_erasable`, `C01_history_views`)
+and compared with the real class (content of every view after every call; deep snapshot of all IR objects across every
+view operation).
 Alphabet tie (round 3): `kernel_ops.check_alphabet` introspects the real classes (Graph, Function, GraphView, Node,
 Value, the tracked lists, GraphInitializers, Attributes, Tape, Builder, onnx_ir.convenience, onnx_ir.tape) and
 compares every public member with `kernel_ops.API_TABLE` (mapped to a model operation and exercised >= 100 times
@@ -59,13 +63,17 @@ ASSUMPTIONS = [
     "list.sort(key=, reverse=) of the tracked lists, every mutator of node.attributes ([k]= add update |= setdefault del "
     "pop popitem clear; GRAPH / GRAPHS / plain attributes), Tape.op / op_multi_out / initializer, Builder.<Op>(...), "
     "convenience.replace_all_uses_with / rename_values / replace_nodes_and_values; one-shot iterator arguments and the "
-    "same node listed twice for extend / insert_* / remove. The complete member-by-member table is "
+    "same node listed twice for extend / insert_* / remove; GraphView(...) (any values / nodes, owned or not, repeated; an "
+    "unnamed initializer), assignment of its inputs / outputs / initializers slots, edits of its plain initializer dict, "
+    "dropping it (round 4: the views live next to the kernel world, Model/KernelView.lean). The complete member-by-member table is "
     "kernel_ops.API_TABLE (published under coverage.alphabet, with the number of times each mapped member was exercised)",
     "OUTSIDE the alphabet (public, listed with its reason in API_TABLE): the raw `Node.graph = x` setter, fields that are "
     "not kernel state (domain / version / overload / doc_string / meta / metadata_props / type / shape / device "
-    "configurations), GraphView (stores plain tuples; checked frame), underscore attributes and `.data`, sort() on a nest in "
-    "which a graph contains itself (the library's traversal does not terminate), and the aliasing copies of the tracked "
-    "containers (initializers.copy() / copy.copy(graph.inputs) / initializers | {...}: findings D420-D422, pending); "
+    "configurations), the GraphView members that are not kernel state (name / doc_string / opset_imports / meta / "
+    "metadata_props and the never-read slot `nodes`: each exercised by the per-member probe `graphview-members`, none can "
+    "mutate IR state), underscore attributes and `.data`, sort() on a nest in which a graph contains itself (the library's "
+    "traversal does not terminate); the copies of the tracked containers are plain dict / list since fixes D420-D422 (the "
+    "failing inputs are re-run on every run); "
     "`Value(producer=n, index=i)` is generated and recorded as known finding D87",
     "arguments are existing objects of the right class (the model is typed)",
     "the node sequence is a duplicate-free list with the documented move semantics; C01_node_sequence_refined instantiates it "
@@ -73,7 +81,10 @@ ASSUMPTIONS = [
     "tree read off the model state (`treeOf`: node sequences, producers, graph-valued attributes in dict order); "
     "C01_sort_step (hypothesis: C12's well-formedness of that tree - no Graph object reachable through two attributes - "
     "evaluated by the driver on every sort call, share published as hyp:C01_sort_step.SortWF) shows that the result is a "
-    "permutation per graph, so the 'refuse a non-permutation' totalisation never decides; node attributes are model state",
+    "permutation per graph, so the 'refuse a non-permutation' totalisation never decides; C01_sort_exact (same hypotheses + "
+    "the call is accepted; its conclusion is evaluated by the driver on every accepted sort and published as "
+    "concl:C01_sort_exact) shows that every graph of the nest is left with exactly the entry the sort model returned; node "
+    "attributes are model state",
     "model = validation, then a mutation phase of guarded primitives whose failing check makes the call raise with the "
     "partial state (ghost counter `late`); C01_mutation_faithful proves that no check fails after a passed validation; "
     "inside one mutation phase the model may order primitive effects differently from the Python statements; Python "
@@ -83,6 +94,9 @@ ASSUMPTIONS = [
     "values whose const tensor refuses renaming meet the implicit naming paths; model and code (fix D85, repo da95b1f) "
     "probe the tensor in the validation phase",
     "the name authority's generated names use a bounded loop (|seen|+1 iterations suffice: C15)",
+    "every call on the real objects and every oracle / snapshot read runs under a per-step timer (20 s): real code that "
+    "does not return is a failure `nontermination:<call>` (after 3 of them no further history is started); an accessor "
+    "that raises while an oracle reads the state is a violated clause / a changed snapshot, never a harness crash",
 ]
 
 
@@ -91,6 +105,7 @@ def run(ctx: Ctx) -> None:
         "a case is one history (list of calls with concrete arguments, objects as creation indices); non-trivial "
         "when it contains a call other than value / tensor construction; distinct by the canonical call list"
     )
+    K.reset_nonterm()
     for obj in load_corpus(PROP):
         K.replay_ops(ctx, PROP, obj["ops"])
     scope = K.run_exhaustive(ctx, PROP, depth=ctx.pick(2, 3), reduced=not ctx.quick)
@@ -99,6 +114,7 @@ def run(ctx: Ctx) -> None:
     ctx.notes.append("directed: " + K.run_sort_scenarios(ctx, PROP))
     ctx.notes.append("directed: " + K.run_position_scenarios(ctx, PROP))
     ctx.notes.append("directed: " + K.run_view_scenarios(ctx, PROP))
+    ctx.notes.append("directed: " + K.run_multiplicity_scenarios(ctx, PROP))
     K.run_random(ctx, PROP, ctx.pick(2000, 40000), ctx.pick(40, 60))
     K.check_alphabet(ctx, PROP)
 
